@@ -8,6 +8,9 @@ import (
 	"fmt"
 	"math/rand"
 	"os"
+	"runtime"
+	"sync"
+	"time"
 )
 
 // Ev is one trace event.
@@ -15,9 +18,10 @@ type Ev map[string]interface{}
 
 // W writes ndjson.
 type W struct {
-	f *os.File
-	b *bufio.Writer
-	N int
+	mu sync.Mutex
+	f  *os.File
+	b  *bufio.Writer
+	N  int
 }
 
 func Create(path string) *W {
@@ -33,14 +37,43 @@ func (w *W) Emit(e Ev) {
 	if err != nil {
 		Fatal("marshal: %v", err)
 	}
+	w.mu.Lock()
+	defer w.mu.Unlock()
 	w.b.Write(b)
 	w.b.WriteByte('\n')
 	w.N++
 }
 
 func (w *W) Close() {
+	w.mu.Lock()
+	defer w.mu.Unlock()
 	w.b.Flush()
 	w.f.Close()
+}
+
+// MemGuard watches the heap of a driver process. An implementation under test that allocates without bound on
+// a small input would otherwise take the machine down (and other checks with it): when the heap exceeds limit
+// bytes the guard writes a final event {"op": "runaway", ...what()}, closes the trace and ends the process with
+// status 0, so that the check judges what was recorded and reports the runaway itself.
+func MemGuard(w *W, limit uint64, what func() Ev) {
+	go func() {
+		var ms runtime.MemStats
+		for {
+			time.Sleep(200 * time.Millisecond)
+			runtime.ReadMemStats(&ms)
+			if ms.HeapAlloc > limit {
+				e := Ev{}
+				if what != nil {
+					e = what()
+				}
+				e["op"], e["heap"] = "runaway", ms.HeapAlloc
+				w.Emit(e)
+				w.Close()
+				fmt.Fprintf(os.Stderr, "vharness: memory guard: heap %d MB exceeds %d MB, stopping\n", ms.HeapAlloc>>20, limit>>20)
+				os.Exit(0)
+			}
+		}
+	}()
 }
 
 // Fatal reports an infrastructure failure (exit status 2, never a verdict).
